@@ -5,8 +5,10 @@ import RzilVerif.Gen.CallbacksGen
 # C15 — nothing in the source is silently dropped: translate it or raise
 
 Two layers.
-(1) The lowering model keeps every statement: one emitted effect per statement, in source order (`compileStmts_length`,
-    `compileStmtsH_count`), and the behaviour's final sequence drops nothing but `EMPTY()` members (`mkSeq_keeps`).
+(1) The lowering model keeps every statement: one emitted effect per statement that is not a bare value (`siV;`, `i++;`:
+    `bareCount`), in source order (`compileStmts_length`, `compileStmtsH_count`; `compileStmts_length_nobare`: one per
+    statement when there is no bare value), and the behaviour's final sequence drops nothing but `EMPTY()` members
+    (`mkSeq_keeps`).
     The real compiler's output is compared with this model on every run (C05/C06 ties), so for the supported dialect
     "every statement is represented" is carried by tree equality.
 (2) Which grammar productions reach the transformer WITHOUT a callback (Lark then hands a raw `Tree` upwards, and
